@@ -40,6 +40,15 @@ func (fd *field[E, F]) to(z *E) *big.Int {
 	return vlib.FromLE(b)
 }
 
+// same: right value and the canonical object (identical words, IsEqual).
+func (fd *field[E, F]) same(z *E, want *big.Int) bool {
+	if fd.to(z).Cmp(want) != 0 {
+		return false
+	}
+	w := fd.from(want)
+	return *z == w && F(z).IsEqual(&w)
+}
+
 func (fd *field[E, F]) drawVec(t *rapid.T, n int, label string) ([]*big.Int, []E, bool) {
 	vals := make([]*big.Int, n)
 	out := make([]E, n)
@@ -81,7 +90,27 @@ func checkFp[E comparable, F arith.Fp[E]](t *rapid.T, fd *field[E, F]) {
 	if alias == kit.AliasXY || alias == kit.AliasAll {
 		yv, yc = xv, xc
 	}
+	// a quarter of the arithmetic cases: operands solved so that the Montgomery word of the RESULT is a
+	// drawn edge word, mostly in the gap [0, 2^w−p) where an unreduced alias r+p still fits the limbs
+	switch op {
+	case "Add", "Sub", "Mul", "Sqr", "Inv":
+		if (alias == kit.AliasNone || alias == kit.AliasZX || alias == kit.AliasZY || op == "Sqr" || op == "Inv") && rapid.IntRange(0, 3).Draw(t, "targeted") == 0 {
+			if tx, ty, tc, ok := f.Targeted(t, op, nil, "tg"); ok {
+				xv, yv, xc, yc = tx, ty, tc, tc
+			}
+		}
+	}
 	x0, y0, junk := fd.from(xv), fd.from(yv), fd.from(jv)
+	// canon: the result must also be the canonical object (same words, IsEqual, IsZero/IsOne as the value says)
+	canon := func(c *kit.Case, z *E, want *big.Int) bool {
+		w := fd.from(want)
+		if *z != w || !F(z).IsEqual(&w) || !F(&w).IsEqual(z) ||
+			F(z).IsZero() != (want.Sign() == 0) || F(z).IsOne() != (want.Cmp(big.NewInt(1)) == 0) {
+			c.Fail("non-canonical-result", fmt.Sprintf("value 0x%x is right but the element differs from the canonical one (words %v vs %v)", want, *z, w))
+			return false
+		}
+		return true
+	}
 	w64 := vlib.Limbs(t, 1, 1, "w64").Uint64()
 	small := uint(rapid.IntRange(0, int(fd.numRoots)).Draw(t, "n"))
 	for _, alias := range kit.Patterns(alias) {
@@ -100,7 +129,7 @@ func checkFp[E comparable, F arith.Fp[E]](t *rapid.T, fd *field[E, F]) {
 			case "Mul":
 				w.Mul(xv, yv)
 			}
-			if !c.Expect("result", fd.to(&z), w.Mod(w, p)) {
+			if !c.Expect("result", fd.to(&z), w.Mod(w, p)) || !canon(c, &z, w) {
 				return
 			}
 			if (alias == kit.AliasNone || alias == kit.AliasZY || alias == kit.AliasXY) && xo != x0 ||
@@ -122,7 +151,7 @@ func checkFp[E comparable, F arith.Fp[E]](t *rapid.T, fd *field[E, F]) {
 				}
 			}
 			z, _ := kit.Un(alias, fn, x0, junk)
-			if w != nil && !c.Expect("result", fd.to(&z), w.Mod(w, p)) {
+			if w != nil && (!c.Expect("result", fd.to(&z), w.Mod(w, p)) || !canon(c, &z, w)) {
 				return
 			}
 		case "AddAssign", "SubAssign", "MulAssign":
@@ -146,7 +175,7 @@ func checkFp[E comparable, F arith.Fp[E]](t *rapid.T, fd *field[E, F]) {
 				F(&z).MulAssign(px)
 				w.Mul(zv, xv)
 			}
-			if !c.Expect("result", fd.to(&z), w.Mod(w, p)) {
+			if !c.Expect("result", fd.to(&z), w.Mod(w, p)) || !canon(c, &z, w) {
 				return
 			}
 		case "IsZero", "IsOne":
@@ -217,14 +246,14 @@ func checkFp[E comparable, F arith.Fp[E]](t *rapid.T, fd *field[E, F]) {
 			}
 			z := junk
 			F(&z).InvUint64(n)
-			if !c.Expect("result", fd.to(&z), new(big.Int).ModInverse(nb, p)) {
+			if wi := new(big.Int).ModInverse(nb, p); !c.Expect("result", fd.to(&z), wi) || !canon(c, &z, wi) {
 				return
 			}
 		case "InvTwoN":
 			c.Vals, c.Classes = []*big.Int{big.NewInt(int64(small))}, []string{"n"}
 			z := junk
 			F(&z).InvTwoN(small)
-			if !c.Expect("result", fd.to(&z), new(big.Int).ModInverse(kit.Mod(kit.Pow2(int(small)), p), p)) {
+			if wi := new(big.Int).ModInverse(kit.Mod(kit.Pow2(int(small)), p), p); !c.Expect("result", fd.to(&z), wi) || !canon(c, &z, wi) {
 				return
 			}
 		case "RootOfUnity":
@@ -327,13 +356,13 @@ func checkVecPoly[E comparable, F arith.Fp[E], V arith.Vec[V, E], P arith.Poly[P
 				pw = kit.Mod(new(big.Int).Mul(pw, wk), p)
 			}
 			acc.Mod(acc, p)
-			if fd.to(&out[k]).Cmp(acc) != 0 {
+			if !fd.same(&out[k], acc) {
 				fail("wrong-transform", fmt.Sprintf("N=%d len=%d in=%x: out[%d]=%x want %x", N, n, vals, k, fd.to(&out[k]), acc))
 				return
 			}
 		}
 		for j := range in {
-			if fd.to(&in[j]).Cmp(vals[j]) != 0 {
+			if !fd.same(&in[j], vals[j]) {
 				fail("operand-clobbered", "input vector changed")
 				return
 			}
@@ -382,7 +411,7 @@ func checkVecPoly[E comparable, F arith.Fp[E], V arith.Vec[V, E], P arith.Poly[P
 			}
 		}
 		for i := range want {
-			if fd.to(&z[i]).Cmp(want[i].Mod(want[i], p)) != 0 {
+			if !fd.same(&z[i], want[i].Mod(want[i], p)) {
 				fail("wrong-product", fmt.Sprintf("x=%x y=%x: coefficient %d = %x want %x", xv, yv, i, fd.to(&z[i]), want[i]))
 				return
 			}
@@ -401,7 +430,7 @@ func checkVecPoly[E comparable, F arith.Fp[E], V arith.Vec[V, E], P arith.Poly[P
 			for i := n - 1; i >= 0; i-- {
 				want.Mul(want, av[0]).Add(want, cv[i]).Mod(want, p)
 			}
-			if fd.to(&got).Cmp(want) != 0 {
+			if !fd.same(&got, want) {
 				fail("wrong-value", fmt.Sprintf("p=%x at %x: %x want %x", cv, av[0], fd.to(&got), want))
 				return
 			}
@@ -434,7 +463,7 @@ func checkVecPoly[E comparable, F arith.Fp[E], V arith.Vec[V, E], P arith.Poly[P
 			for i := range xv {
 				want.Add(want, new(big.Int).Mul(xv[i], yv[i]))
 			}
-			if fd.to(&got).Cmp(want.Mod(want, p)) != 0 {
+			if !fd.same(&got, want.Mod(want, p)) {
 				fail("wrong-value", fmt.Sprintf("x=%x y=%x: %x want %x", xv, yv, fd.to(&got), want))
 				return
 			}
@@ -449,7 +478,7 @@ func checkVecPoly[E comparable, F arith.Fp[E], V arith.Vec[V, E], P arith.Poly[P
 				ws := kit.Mod(new(big.Int).Add(xv[i], yv[i]), p)
 				wd := kit.Mod(new(big.Int).Sub(xv[i], yv[i]), p)
 				wm := kit.Mod(new(big.Int).Mul(xv[i], av[0]), p)
-				if fd.to(&s[i]).Cmp(ws) != 0 || fd.to(&d[i]).Cmp(wd) != 0 || fd.to(&m[i]).Cmp(wm) != 0 {
+				if !fd.same(&s[i], ws) || !fd.same(&d[i], wd) || !fd.same(&m[i], wm) {
 					fail("wrong-value", fmt.Sprintf("index %d of AddAssign/SubAssign/ScalarMul", i))
 					return
 				}
